@@ -21,6 +21,22 @@ def grid_rects(n):
             for y1 in range(n) for y2 in range(y1 + 1, n + 1)]
 
 
+def set_rects(bits, W, H):
+    """the pixel set given as a bit mask over a W x H grid, as the list of its maximal row runs"""
+    out = []
+    for y in range(H):
+        x = 0
+        while x < W:
+            if bits >> (y * W + x) & 1:
+                x0 = x
+                while x < W and bits >> (y * W + x) & 1:
+                    x += 1
+                out.append((x0, y, x, y + 1))
+            else:
+                x += 1
+    return out
+
+
 def pair_case(k, ra, rb, how_a, how_b):
     """regions A (reg 0) and B (reg 1) built from rect lists, then all ops on copies"""
     L = ["case %d pair" % k]
@@ -119,6 +135,16 @@ def gen_cases(ctx):
         rb = [rng.choice(rects) for _ in range(nb)]
         cases.append(pair_case(k, ra, rb, rng.choice(hows), rng.choice(hows)))
         k += 1
+    # exhaustive over pixel sets: every ordered pair of subsets of a small grid (each built as the union
+    # of its row runs): 3x2 grid (64 x 64 pairs) in the quick tier, 3x3 grid (512 x 512) in the thorough one
+    GW, GH = (3, 2) if ctx.quick() else (3, 3)
+    sets = [set_rects(b, GW, GH) for b in range(1 << (GW * GH))]
+    for ra in sets:
+        for rb in sets:
+            cases.append(pair_case(k, ra, rb, ["or"], ["or"]))
+            k += 1
+    ctx.coverage["exhaustive_pixel_sets"] = "all %d x %d ordered pairs of pixel sets on a %dx%d grid" % (
+        len(sets), len(sets), GW, GH)
     if not ctx.quick():
         # exhaustive: all ordered pairs of regions that are unions of <= 2 rectangles on a 3x3 grid
         small = grid_rects(3)
@@ -219,6 +245,8 @@ def oracle_case(script_lines, impl_lines):
             line = next(it)
         except StopIteration:
             return "implementation produced no observation for '%s' (crash?)" % op
+        if line.startswith("HANG"):
+            return "'%s' does not return (implementation stopped by the harness watchdog)" % op
         if p[0] in ("clip", "clip2"):
             v = list(map(int, p[1:]))
             q = line.split()
@@ -243,10 +271,14 @@ def oracle_case(script_lines, impl_lines):
                     # clamped non-empty rectangle; nothing to check (C15 uses it that way)
                     pass
             continue
+        if line.startswith("HANG"):
+            return "'%s' does not return (implementation stopped by the harness watchdog)" % op
         try:
             o = parse_obs(line)
-        except (ValueError, IndexError):
-            return "unparsable observation (garbage iteration) after '%s': %s" % (op, line[:120])
+            for key in ("f", "x", "y", "xy", "e", "n"):
+                o[key]
+        except (ValueError, IndexError, KeyError):
+            return "unparsable or truncated observation after '%s': %s" % (op, line[:120])
         e = check_partition(o)
         if e:
             return "%s after '%s'" % (e, op)
@@ -303,8 +335,8 @@ def oracle_case(script_lines, impl_lines):
 # ---------------------------------------------------------------- the check
 def run_pair(ctx, cases, cexe, mexe):
     script = "\n".join("\n".join(c) for c in cases) + "\n"
-    rc1, cout, cerr = vlib.run_driver(cexe, script, timeout=3000)
-    rc2, mout, merr = vlib.run_driver(mexe, script, timeout=3000, unlimited_stack=True)
+    rc1, cout, cerr = vlib.run_driver(cexe, script, timeout=900 if ctx.quick() else 6000)
+    rc2, mout, merr = vlib.run_driver(mexe, script, timeout=900 if ctx.quick() else 6000, unlimited_stack=True)
     return (rc1, cout, cerr), (rc2, mout, merr)
 
 
@@ -325,7 +357,8 @@ def check(ctx):
     hist = {}
     mismatches = []
     oracle_fail = []
-    oracle_budget = 6000 if ctx.quick() else 40000
+    oracle_budget = 12000 if ctx.quick() else 60000
+    stride = max(1, -(-len(cases) // oracle_budget))   # sample evenly over all case kinds
     for idx, c in enumerate(cases):
         il = cc[idx][1] if idx < len(cc) else []
         ml = mc[idx][1] if idx < len(mc) else []
@@ -342,7 +375,7 @@ def check(ctx):
                     n = 0
                 if n >= 2:
                     distinct.add(l.split(" ", 1)[1] if not l.startswith(("and", "sub", "pop")) else l)
-        if "degenerate" not in c[0] and (idx < oracle_budget or d is not None):
+        if "degenerate" not in c[0] and (idx % stride == 0 or d is not None):
             e = oracle_case(c, il)
             if e:
                 oracle_fail.append((idx, e))
@@ -355,7 +388,7 @@ def check(ctx):
              "iteration orders) compared. distinct_nontrivial = distinct observed regions with >= 2 rectangles",
         samples=[cases[i] for i in (0, len(cases) // 2, len(cases) - 1)],
         input_distribution=hist, cases=len(cases), correspondence_mismatches=len(mismatches),
-        oracle_checked_cases=min(len(cases), oracle_budget),
+        oracle_checked_cases=len(range(0, len(cases), stride)),
         exhaustive=False)
     ctx.assumptions += ["coordinates stay within 32-bit int (no overflow in the C code)",
                         "theorems are about well-formed regions (as produced by the API from non-degenerate rectangles)"]
